@@ -389,6 +389,14 @@ def r3_noise(ctx):
                     return self.tosym(e.func.value)
                 return super().tosym(e)
 
+        # the documented statistics of this rule are read: the scalar noise is RSS / N over *all* observed entries - built from the per-feature
+        # statistics and averaged, every feature counts the same whatever its number of observed values
+        read_keys = {U(x.slice).strip("'\"") for x in ast.walk(f.node) if isinstance(x, ast.Subscript) and U(x.value) == "state" and isinstance(x.slice, ast.Constant)}
+        if not {l2, nobs} <= read_keys:
+            pooled = [c for c in ast.walk(var_expr) if isinstance(c, ast.Call) and ((isinstance(c.func, ast.Attribute) and c.func.attr in ("mean", "nanmean")) or U(c.func) in ("torch.mean", "torch.nanmean"))]
+            ctx.violation("C04.R3b", f, rets[0], f"{name} reads {sorted(read_keys)} instead of `{l2}` / `{nobs}`" + (f" and averages (`{U(pooled[0])[:50]}`)" if pooled else "") +
+                          ": the noise level is no longer the residual sum of squares over the observed entries divided by their number (features with few observed values weigh as much as the others)")
+            continue
         try:
             got = Nz({"y_x_model": YM, "model_x_model": MM}, call_hook=hook)(var_expr)
         except NFUnsupported as e:
